@@ -1,5 +1,81 @@
-(* stub, replaced below *)
-Require Import OV.ExtData.Save OV.Gen.C20Guard.
-Theorem C20_stub : guard_all_graphs = guard_all_graphs.
-Proof. exact eq_refl. Qed.
-Print Assumptions C20_stub.
+(* C20 property theorems: statements only, each closed by `exact`, Print Assumptions beneath.
+   Model: ExtData/Save.v (run_save = torch_2_5.save_model_with_external_data -> onnx_ir.save, with the k-th
+   file-system call failing); Gen/C20Guard.v is regenerated from torch_2_5.py on every run.
+   Not modelled: bytes of the protobuf encoding (the model file is kept structured), symlinks/hard links,
+   external source files that are too short, sharded saves (never requested by the function). *)
+From Coq Require Import ZArith List Bool String.
+Require Import OV.ExtData.Save OV.ExtData.SaveProofs OV.Gen.C20Guard.
+Import ListNotations.
+Open Scope Z_scope.
+
+(* the in-memory model after the call is the model before the call -- same slots holding the same tensor
+   objects (tensor identity `tid` included) -- for every model, file system and fault point (None = no fault) *)
+Theorem C20_save_restores : forall ag M mp fs k, r_mem (run_save ag M mp fs k) = M.
+Proof. exact save_restores. Qed.
+Print Assumptions C20_save_restores.
+
+(* an initializer without a value inside the guard's scope: ValueError, no file-system call, nothing written.
+   ag = true is the full statement of the property (every graph), ag = false the main graph only *)
+Theorem C20_guard_before_io : forall ag M mp fs k, uninit_in_scope ag M ->
+  run_save ag M mp fs k = {| r_out := ErrValue; r_mem := M; r_fs := fs; r_inv := []; r_steps := O |}.
+Proof. exact guard_before_io. Qed.
+Print Assumptions C20_guard_before_io.
+
+(* ... instantiated with the scope the source has now (Gen/C20Guard.v) *)
+Theorem C20_guard_before_io_current_source : forall M mp fs k, uninit_in_scope guard_all_graphs M ->
+  run_save guard_all_graphs M mp fs k = {| r_out := ErrValue; r_mem := M; r_fs := fs; r_inv := []; r_steps := O |}.
+Proof. exact (guard_before_io guard_all_graphs). Qed.
+Print Assumptions C20_guard_before_io_current_source.
+
+(* with the main-graph-only guard the full statement is false: a subgraph initializer without a value is let
+   through, both files are written, and the loaded model lacks that initializer (replayed on the real code) *)
+Theorem C20_guard_main_graph_only_refuted : exists M mp fs,
+  uninit_in_scope true M /\
+  r_out (run_save false M mp fs None) = OK /\
+  r_fs (run_save false M mp fs None) mp <> fs mp /\
+  r_fs (run_save false M mp fs None) (data_path mp) <> fs (data_path mp) /\
+  load (r_fs (run_save false M mp fs None)) mp = Some [("w"%string, true, repeat 1 257)].
+Proof. exact guard_subgraph_refuted. Qed.
+Print Assumptions C20_guard_main_graph_only_refuted.
+
+(* no fault, guard passed, every external source readable: success, and loading the written files gives every
+   initialised initializer back with exactly the bytes it had (zero-size, scalar, <= / > threshold, aligned,
+   already-external incl. those stored in the destination file) *)
+Theorem C20_save_load_roundtrip : forall ag M mp fs,
+  guard_fails ag M = false -> all_readable fs M ->
+  r_out (run_save ag M mp fs None) = OK /\
+  load (r_fs (run_save ag M mp fs None)) mp = Some (expected fs M).
+Proof. exact save_load_roundtrip. Qed.
+Print Assumptions C20_save_load_roundtrip.
+
+(* whatever fails, no file other than the model file and its sibling data file changes: tensors stored in
+   other files are still backed by their original data *)
+Theorem C20_only_destination_files_touched : forall ag M mp fs k q,
+  q <> mp -> q <> data_path mp -> r_fs (run_save ag M mp fs k) q = fs q.
+Proof. exact only_destination_files_touched. Qed.
+Print Assumptions C20_only_destination_files_touched.
+
+(* a failing file-system call always surfaces as OSError *)
+Theorem C20_fault_is_error : forall ag M mp fs k, guard_fails ag M = false ->
+  (k < List.length (ops_unload M mp fs) + 3)%nat -> r_out (run_save ag M mp fs (Some k)) = ErrOS.
+Proof. exact fault_is_error. Qed.
+Print Assumptions C20_fault_is_error.
+
+(* the documented exception of ir.save, exactly: the tensors invalidated by a save are among -- and on success
+   are precisely -- the external tensors over the threshold whose backing file is the data file being written *)
+Theorem C20_external_source_overwrite : forall ag M mp fs k,
+  incl (r_inv (run_save ag M mp fs k)) (overwritten_sources M mp fs) /\
+  (r_out (run_save ag M mp fs k) = OK -> r_inv (run_save ag M mp fs k) = overwritten_sources M mp fs).
+Proof. exact external_source_overwrite. Qed.
+Print Assumptions C20_external_source_overwrite.
+
+Theorem C20_overwritten_sources_char : forall M mp fs i, In i (overwritten_sources M mp fs) ->
+  exists s src off len, In s M /\ s_val s = Some (Ext i src off len) /\ src = data_path mp /\
+                        size_threshold < len /\ fs (data_path mp) <> None.
+Proof. exact overwritten_sources_char. Qed.
+Print Assumptions C20_overwritten_sources_char.
+
+(* non-vacuity of the round-trip hypotheses and a faulted run, on a concrete model *)
+Theorem C20_example_hypotheses_satisfiable : guard_fails true ex_M = false /\ all_readable ex_fs ex_M.
+Proof. exact ex_hypotheses. Qed.
+Print Assumptions C20_example_hypotheses_satisfiable.
